@@ -154,6 +154,9 @@ impl Worker {
         }
         h.write_u64(r.sched.points);
         bump(&mut rm.stats, "worlds", 1);
+        if w.env != 0 {
+            bump(&mut rm.stats, "dim.environment_not_baseline", 1);
+        }
         if w.log_level > 3 {
             bump(&mut rm.stats, "dim.log_level_debug_or_trace", 1);
         }
@@ -592,6 +595,7 @@ pub fn worker_main(root: &std::path::Path, dir: &str) -> i32 {
     // the working directory of the compiler process: an empty directory
     let cwd = format!("{}/cwd", dir);
     let _ = std::fs::create_dir_all(&cwd);
+    let _ = std::fs::create_dir_all(format!("{}/cwd2", dir));
     let _ = std::env::set_current_dir(&cwd);
     crate::job::install_panic_hook();
     crate::job::install_logger();
